@@ -699,7 +699,7 @@ class ProfileStack:
                 except ProfileError as exc:
                     repo_id = node.repoconfig.repo_id
                     logger.error(
-                        f"repo {repo_id!r}: '{self.name}/parent' (line {lineno}), "
+                        f"repo {repo_id!r}: '{node.name}/parent' (line {lineno}), "
                         f"bad profile parent {line!r}: {exc.error}"
                     )
                     continue
